@@ -14,7 +14,26 @@ def main():
     mod = importlib.import_module("harness." + a.pid.lower())
     if a.replay:
         sys.exit(mod.replay(a.replay))
-    sys.exit(mod.main(a.tier))
+    try:
+        rc = mod.main(a.tier)
+    except Exception:  # noqa: BLE001
+        # the harness could not drive this tree to the end: the tie between model and code is
+        # broken (an interface the check relies on changed); report it, never pass silently
+        import json
+        import traceback
+        from harness import common
+        tb = traceback.format_exc()
+        d = os.path.join(common.VERIF, "replays", a.pid)
+        os.makedirs(d, exist_ok=True)
+        path = os.path.join(d, "%s_harness_error.json" % a.tier)
+        with open(path, "w") as f:
+            json.dump({"property": a.pid, "broken": "the check's harness raised while driving the implementation "
+                       "(correspondence cannot be established)", "traceback": tb[-4000:]}, f, indent=1)
+        print("VIOLATION property=%s replay=%s no-failing-input-found" % (a.pid, os.path.relpath(path, common.VERIF)),
+              flush=True)
+        sys.stderr.write(tb)
+        rc = 1
+    sys.exit(rc)
 
 
 if __name__ == "__main__":
